@@ -21,6 +21,9 @@ def check(run):
                 'monitors: begin/end intervals of one task never overlap, every task function is started exactly once over the run and a repeated execute; '
                 'non-trivial = the schedule contained contention (a lock attempt answered False or a positive re-check under the lock); distinct by (program, params)')
     drv = X.setup(run, THEOREMS)
+    from jugverif import seedproc
+    seedproc.family(run)
+    X.loop_correspondence(run, drv)
     rng = core.rng_for(run.seed, 'c02')
     scratch = core.scratch_dir()
     try:
